@@ -37,6 +37,38 @@ def exact(x):
     return f
 
 
+def rot_tokens(lines):
+    """`@rot <total angle> <cos> <sin>` for every hinted angle that is not a multiple of 90 degrees: the entries of the
+    rotation matrix Cpt.R computes with float cos / sin, snapped to exact rationals (parameters of the model)"""
+    import math
+    import re
+    toks = []
+    seen = set()
+    for l in lines:
+        if ';' not in l:
+            continue
+        m = re.search(r'rotate=\s*(-?[0-9.]+)', l.split(';', 1)[1])
+        if not m:
+            continue
+        r = Fraction(m.group(1))
+        if r % 90 == 0:
+            continue
+        for base in (0, 90, 180, -90):
+            total = Fraction(base) + r
+            if total in seen:
+                continue
+            seen.add(total)
+            a = (float(base) + float(m.group(1)) + 180) % 360 - 180          # Cpt.angle, then Cpt.R
+            t = a / 180.0 * math.pi
+            toks += ['@rot', fstr(total), fstr(exact(math.cos(t))), fstr(exact(math.sin(t)))]
+    return toks
+
+
+def request(k, lines):
+    """`<spacing> [@rot …] | line | line …`"""
+    return ' '.join([fstr(k)] + rot_tokens(lines)) + ' | ' + ' | '.join(' '.join(l.split()) for l in lines)
+
+
 def gname(n):
     return '+'.join(n) if isinstance(n, tuple) else str(n)
 
@@ -86,7 +118,7 @@ def run_placer(chk, drv, R, lines, k, origin):
         chk.count('placer', 'real-graphs-error:%s' % type(e).__name__)
         return None
     # ---- 1. ordered graphs: model-built vs real
-    req = '%s | %s' % (fstr(k), ' | '.join(' '.join(l.split()) for l in lines))
+    req = request(k, lines)
     rep = drv.ask1('lay.pgraph ' + req)
     bad = None
     try:
